@@ -38,6 +38,12 @@ impl FixtureDatabase {
         self.file_cache
             .insert(file_path.clone(), std::sync::Arc::new(content.to_string()));
 
+        // Derived caches (cycles, available fixtures, imported fixtures) are keyed by the
+        // definitions version, but they also depend on file contents: imports are re-read
+        // from the cached text of every file on the import chain. Invalidate them on every
+        // content change, including one that fails to parse below.
+        self.invalidate_cycle_cache();
+
         // Parse the Python code
         let parsed = match parse(content, Mode::Module, "") {
             Ok(ast) => ast,
@@ -70,6 +76,9 @@ impl FixtureDatabase {
         // Skip this during initial workspace scan for performance
         if cleanup_previous {
             self.cleanup_definitions_for_file(&file_path);
+            // An edit that only removes definitions records no new definition, so the
+            // version is not bumped by record_fixture_definition: do it here.
+            self.invalidate_cycle_cache();
         }
 
         // Check if this is a conftest.py
